@@ -217,7 +217,8 @@ func wrapBranch(name string, message profile.Message, branch BranchRegoResult, m
 		}
 		matchesLine := fmt.Sprintf("  %s := trace(\"%s\",\"%s\",%s,%s)", bindingResult, r.ConstraintId(), traceResultPath, r.TraceNode, r.TraceValue)
 		for _, l := range r.Rego {
-			if strings.Contains(l, "$message") {
+			// $message is a variable of embedded Rego; the same text in a declarative constraint (e.g. a value of `in`) is data
+			if r.Constraint == "rego" && strings.Contains(l, "$message") {
 				customMessage = true
 				l = strings.ReplaceAll(l, "$message", "message")
 			}
